@@ -105,6 +105,8 @@ def generate(rng, focus, tier="quick"):
     else:
         rates = [0.0, 1e-4, 5e-4, 1e-3, 2.5e-3, 5e-3, 0.01, 0.05]
         fee = {"kind": "pct", "c": rng.choice(rates), "t": rng.choice(rates[:6] + [0.0, 0.0])}
+        if rng.random() < 0.06:
+            fee = {"kind": "pct", "c": rng.choice([0.25, 0.5, 0.9, 1.0]), "t": rng.choice([0.0, 0.1, 0.5, 1.0])}
     start = timegen.start_instant(rng)
     refused_rate = 0.30 if "C15" in focus else 0.15
     if rng.random() < 0.15:
@@ -165,7 +167,13 @@ def generate(rng, focus, tier="quick"):
             q = {"v": _qty(rng)}
         sh["held"].add((pid, a))
         sh["pending"] += 1
-        return {"k": "order", "pid": pid, "asset": a, "qty": q}
+        op = {"k": "order", "pid": pid, "asset": a, "qty": q}
+        r3 = rng.random()
+        if r3 < 0.05:
+            op["preset_commission"] = rng.choice([1.0, 9.99, 0.01, 250.0])   # Order(commission=...) "if known"
+        elif r3 < 0.10:
+            op["resubmit"] = rng.randrange(0, 50)     # re-send an Order object that was already filled
+        return op
 
     def fault_op():
         kind = rng.choice(enabled)
@@ -305,7 +313,7 @@ def generate(rng, focus, tier="quick"):
             pid = rng.choice(sh["pids"])
             a = rng.choice(assets)
             emit({"k": "mark", "pid": pid, "asset": a, "price": max(0.01, round(sh["quotes"][a] * math.exp(rng.gauss(0, 0.05)), 4))})
-        elif r < 0.94:
+        elif r < (0.955 if "C03" in focus else 0.94):
             pid = rng.choice(sh["pids"])
             a = rng.choice(assets)
             n = rng.randrange(1, 4)
@@ -316,9 +324,12 @@ def generate(rng, focus, tier="quick"):
                     oid = rng.randrange(1000)
                 emit({"k": "pftxn", "pid": pid, "asset": a, "qty": _qty(rng) if rng.random() < 0.7 else rng.choice([100, -100, 40, -40]),
                       "price": max(0.01, round(sh["quotes"][a] * math.exp(rng.gauss(0, 0.05)), 4)),
-                      "comm": rng.choice([0.0, 0.0, 1.0, 2.5, round(rng.uniform(0, 50), 2)]), "oid": oid, "same_oid": same})
+                      "comm": (rng.choice([0.0, 1.0, -1.0, 2.5, -2.5, 1.0, -1.0, round(rng.uniform(-20, 50), 2)])
+                               if "C03" in focus else        # C03 quantifies over all real-valued commissions (rebates)
+                               rng.choice([0.0, 0.0, 1.0, 2.5, round(rng.uniform(0, 50), 2)])),
+                      "oid": oid, "same_oid": same})
             sh["held"].add((pid, a))
-        elif r < 0.945:
+        elif r < 0.96:
             emit({"k": "broker2", "pid": rng.choice(PIDS), "funds": rng.choice([1e3, 1e5, 77.7]),
                   "asset": rng.choice(assets), "qty": _qty(rng)})
         elif r < 0.97 and len(sh["pids"]) < max_pf:
@@ -817,13 +828,28 @@ class Exec(object):
         pid = op["pid"]
         asset = op["asset"]
         qty = _resolve_qty(op["qty"], s, m, pid, asset)
-        oid = "o%05d" % self.next_oid
-        self.next_oid += 1
-        if self.cfg.get("np_qty"):
-            import numpy as np
-            order = Order(ts(m.now), asset, np.int64(qty), order_id=oid)   # numpy integers are integers too
-        else:
-            order = Order(ts(m.now), asset, qty, order_id=oid)
+        order = None
+        if "resubmit" in op and pid in m.pfs:
+            # the same Order object sent again after it was filled (a standing order re-sent): a new submission
+            done = sorted(o for o, rec in self.orders.items() if rec["fills"] == 1 and rec.get("obj") is not None
+                          and not any(x["oid"] == o for p_ in m.pfs.values() for x in p_.pending))
+            if done:
+                oid = done[op["resubmit"] % len(done)]
+                order = self.orders[oid]["obj"]
+                asset, qty = order.asset, int(order.quantity)
+                ctx.probe("order_object_resubmitted_after_fill")
+        if order is None:
+            oid = "o%05d" % self.next_oid
+            self.next_oid += 1
+            kw = {}
+            if "preset_commission" in op:
+                kw["commission"] = float(op["preset_commission"])
+                ctx.probe("order_with_preset_commission")
+            if self.cfg.get("np_qty"):
+                import numpy as np
+                order = Order(ts(m.now), asset, np.int64(qty), order_id=oid, **kw)   # numpy integers are integers too
+            else:
+                order = Order(ts(m.now), asset, qty, order_id=oid, **kw)
         if pid not in m.pfs:
             self.refused("unknown_portfolio", lambda: s.broker.submit_order(pid, order),
                          (KeyError,), "submit_order")
@@ -837,7 +863,7 @@ class Exec(object):
             return False
         p = m.pfs[pid]
         p.pending.append({"oid": oid, "asset": asset, "qty": qty})
-        self.orders[oid] = {"pid": pid, "asset": asset, "qty": qty, "step": ctx.step, "fills": 0}
+        self.orders[oid] = {"pid": pid, "asset": asset, "qty": qty, "step": ctx.step, "fills": 0, "obj": order}
         if ctx.judging("C04"):
             after = snapshot(s)
             # (i) submitting by itself never changes cash, holdings or history
